@@ -115,6 +115,13 @@ CLAIMED = {
              "effect it causes for 4096<=|v|<8192 is a recorded known finding (F9a). Re-ingestion of a written S(Q) is checked by the "
              "oracle on the real code.", ref="8 (C18), 5",
              tech="Lean 4 theorems (digit round trips, rational rounding bound) on a hand-written model + byte-exact correspondence (partial)"),
+ "C12": dict(text="Theorems on the hand-written workflow state machine whose numeric content is the generated code: each step stores the "
+             "named Transformer/FourierFilter/Converter call with the option dictionary the code builds; no step overwrites the "
+             "merged curve (frame); filter before = filter after the explicit transform; every step is idempotent in every state; by "
+             "induction over arbitrary op sequences the curves '<rsf> Merged', 'FT term', 'S(Q) FT', '<rsf> FT' are absent or equal to "
+             "a fixed function of (merged S(Q), settings). The weight is on the correspondence: random op sequences on the real StoG, "
+             "all master dictionaries compared after every step.", ref="8 (C12), 5",
+             tech="Lean 4 theorems (invariant by induction over op lists) on a hand-written state machine + op-sequence correspondence"),
 }
 
 m = {"version": 1, "setup_cmd": "./setup.sh",
